@@ -328,6 +328,13 @@ def forms():
         "array mixed f32 const": lambda m, x: m.array([onp.float32(1.5), 0.1]) * x[0, 0],
         "array mixed c64": lambda m, x: m.array([(x[0, 0] * (1.0 + 2.0j)).astype(onp.complex64), 0.1 + 0.3j]),
         "array mixed f16 nested": lambda m, x: m.array([[x.astype(onp.float16)[0, 0], 0.1], [1, x.astype(onp.float16)[1, 1]]]),
+        # constants with special values (exact zeros in a base / an argument of abs; negative positions in an int64 index array): the
+        # rules that treat them specially must leave the constants - and the values they have handed out - as they are (checked below)
+        "power zero base": lambda m, x: m.sum(m.power(_CZ, 1.0 + 0.1 * x)),
+        "pow op zero base": lambda m, x: m.sum(_CZ ** (1.5 + 0.1 * x)),
+        "abs with zeros": lambda m, x: m.abs(x * _CZ),
+        "int64 negative index array": lambda m, x: m.ravel(x)[_IDX64] * 2.0,
+        "int64 negative index array 2": lambda m, x: m.sum(m.ravel(m.sin(x))[_IDX64]) + m.ravel(x)[_IDX64[:2]][0],
         "seq index": lambda m, x: float(_ab().list([x[0, 0], 3.0, 7.0]).index(7.0)) * x,
         "seq iter": lambda m, x: _ab().list([2.0 * e for e in _ab().tuple((x[0], x[1, 1], 1.5))]),
         "dict queries": lambda m, x: x * float(len(_ab().dict({"a": x[0], "b": 1.0})) + 4 * ("a" in _ab().dict({"a": x[0]})) + 8 * ("z" in _ab().dict({"a": x[0]}))
@@ -345,6 +352,11 @@ def forms():
         "caught inner failure f": lambda m, x: _caught(m, x, "f"),
     }
     return {k: v for k, v in F.items() if v is not None}
+
+
+_CZ = onp.array([[0.0, 1.5, 2.0], [0.5, 0.0, 1.25]])
+_IDX64 = onp.array([-1, 0, -1, 2, -6], dtype=onp.int64)
+_CONSTS_DIGEST = []
 
 
 def _ab():
@@ -400,10 +412,27 @@ def forms_body(c):
         return Outcome("numpy_rejects", detail=str(e)[:100], sample=sample)
     before = digest([x])
     c.features.update(form=name, stack=stack)
+    if not _CONSTS_DIGEST:
+        _CONSTS_DIGEST.append(digest([_CZ, _IDX64]))
     try:
         got = nest(lambda y: f(AG, y), x, stack, vseed)
+        # ... and a derivative is actually pulled back / pushed forward once, after which everything handed out so far must be unchanged
+        import autograd
+
+        if stack and stack[0] == "r":
+            vjp_, y_held = autograd.make_vjp(lambda y: f(AG, y))(x)
+            held = digest([y_held]) if isinstance(y_held, onp.ndarray) else None
+            try:
+                vjp_(onp.ones(onp.shape(y_held)) if isinstance(y_held, onp.ndarray) else 1.0)
+            except Exception:
+                held = None
+            if held is not None and digest([y_held]) != held:
+                return fail("primal_mismatch", "the value handed out by make_vjp changed when its VJP function was called", f"C06|form:{name}|value_changed", sample=sample)
     except Exception as e:
         return raised(e, "value", labels=["stack=" + stack], sample=sample)
+    if digest([_CZ, _IDX64]) != _CONSTS_DIGEST[0]:
+        return fail("primal_mismatch", "a constant captured by the evaluated expression (an array with exact zeros / an int64 index array) was modified: "
+                    "the same expression now has another value", f"C06|form:{name}|constant_changed", sample=sample)
     return compare(got, want, before, [x], lambda kind: f"C06|form:{name}|{kind}", json.dumps([name, stack]), ["stack=" + stack, "forms"], sample)
 
 
